@@ -70,7 +70,9 @@ def shard_slice(seq, shard, nshards):
 # ----------------------------------------------------------------------
 # decimal (non-dyadic) domain
 # ----------------------------------------------------------------------
-LABELS = ["a", "b", "c", "aa", "x y", "", "é", "7"]
+# mostly three plain labels (same-labelled neighbours must stay frequent); now and then text that is not in Unicode normal form
+DEFAULT_LABELS = ["a", "b", "c"] * 6 + ["e\u0301", "\u212b"]
+LABELS = ["a", "b", "c", "aa", "x y", "", "é", "7", "e\u0301"]  # the last two look alike: precomposed and decomposed
 
 
 BIG_TIER_RATE = 0.004
@@ -95,7 +97,7 @@ def rand_time_source(rng):
 def rand_interval_entries(rng, nmax=6, hi=5.0, labels=None, allow_blank=False, touching_bias=0.5, src=None):
     """A sorted non-overlapping interval entry list on decimals; consecutive
     entries touch with probability touching_bias."""
-    labels = labels or ["a", "b", "c"]
+    labels = labels or DEFAULT_LABELS
     if src is None:
         _, src = rand_time_source(rng)
     n = rng.randrange(0, nmax + 1)
@@ -121,8 +123,8 @@ def rand_interval_entries(rng, nmax=6, hi=5.0, labels=None, allow_blank=False, t
     return entries
 
 
-def rand_point_entries(rng, nmax=6, hi=5.0, labels=None, src=None):
-    labels = labels or ["a", "b", "c"]
+def rand_point_entries(rng, nmax=6, hi=5.0, labels=None, src=None, ties=0.0):
+    labels = labels or DEFAULT_LABELS
     if src is None:
         _, src = rand_time_source(rng)
     n = rng.randrange(0, nmax + 1)
@@ -134,7 +136,18 @@ def rand_point_entries(rng, nmax=6, hi=5.0, labels=None, src=None):
         # same point to the library, so they are not generated as distinct entries
         if not pts or x - pts[-1] > 1e-6:
             pts.append(x)
-    return [(t, rng.choice(labels)) for t in pts]
+    ents = [(t, rng.choice(labels)) for t in pts]
+    if ties and ents and rng.random() < ties:
+        # two (now and then three) marks at exactly the same time - a tone and a boundary on one point, say; the constructors accept
+        # this, validate() is True, and the tier keeps them ordered by label
+        for _ in range(rng.choice([1, 1, 2])):
+            t, lab = ents[rng.randrange(len(ents))]
+            others = [x for x in labels if x and x != lab] or [lab + "2"]
+            new = (t, rng.choice(others))
+            if new not in ents:
+                ents.append(new)
+        ents.sort()
+    return ents
 
 
 def span_for(rng, entries, hi=5.0, kind="I"):
